@@ -197,6 +197,15 @@ def cases(ctx):
     reject("c19.def.path.parts_scalar", f"{DF}({{'path': a}})", [("a", "int")], "I64(a)")
     reject("c19.def.path.part_none", f"{DF}({{'path': ['a', None]}})")
     reject("c19.def.path.part_list", f"{DF}({{'path': ['a', [a]]}})", [("a", "int")], "I64(a)")
+    bad_parts = [("unknown_part_type", "['a', {'type': 'set_value'}]"), ("unknown_part_arg", "['a', {'type': 'list_value', 'indx': 0}]"),
+                 ("other_kind_arg", "['a', {'type': 'map_value', 'index.equal_to': 0}]"), ("key_not_keylike", "['a', {'type': 'map_value', 'key': {'value.eq': 1}}]"),
+                 ("parts_scalar", "5"), ("part_none", "['a', None]")]
+    for bid, parts in bad_parts:
+        pspec = f"{{'path.first': {parts}}}"
+        reject(f"c19.def.cond.patharg.{bid}", f"{CF}({{'value.equal_to': {pspec}}})")
+        reject(f"c19.def.cond.patharg.in_list.{bid}", f"{CF}({{'value.in': [1, {pspec}]}})")
+        reject(f"c19.def.cond.patharg.in_map.{bid}", f"{CF}({{'value.in_range': {{'lower': 0, 'upper': {pspec}}}}})")
+        reject(f"c19.def.rule.cond.patharg.{bid}", f"Rule.from_spec({{'path': ['b'], 'condition': {{'value.equal_to': {pspec}}}}})")
     # part specs
     CV = "ContainerValue.from_spec"
     for n, v in enumerate(["'dict_value'", "'map'", "'list'", "''", "'MAP_VALUE'", "None", "5", "'map_or_list'"]):
